@@ -456,6 +456,7 @@ func (p *Proxy) handleConnectRequest(ctx *Context, req *http.Request, session *S
 			res = proxyutil.NewResponse(502, nil, req)
 			proxyutil.Warning(res.Header, cerr)
 		}
+		defer res.Body.Close()
 
 		if err := p.resmod.ModifyResponse(res); err != nil {
 			log.Errorf("martian: error modifying CONNECT response: %v", err)
@@ -470,12 +471,18 @@ func (p *Proxy) handleConnectRequest(ctx *Context, req *http.Request, session *S
 			res.Close = true
 		}
 
-		if err := res.Write(brw); err != nil {
-			log.Errorf("martian: got error while writing response back to client: %v", err)
+		werr := res.Write(brw)
+		if werr != nil {
+			log.Errorf("martian: got error while writing response back to client: %v", werr)
 		}
 		err := brw.Flush()
 		if err != nil {
 			log.Errorf("martian: got error while flushing response back to client: %v", err)
+		}
+		if werr != nil {
+			// Part of the answer is on the wire (a downstream proxy's refusal
+			// that ended inside its body): the connection is out of frame.
+			return errClose
 		}
 		return err
 	}
@@ -771,6 +778,18 @@ func (p *Proxy) roundTrip(ctx *Context, req *http.Request) (*http.Response, erro
 	return p.roundTripper.RoundTrip(req)
 }
 
+// connBody is the body of a response that is the last thing read from a
+// connection: closing it closes the connection.
+type connBody struct {
+	io.ReadCloser
+	conn net.Conn
+}
+
+func (b *connBody) Close() error {
+	b.ReadCloser.Close()
+	return b.conn.Close()
+}
+
 func (p *Proxy) connect(req *http.Request) (*http.Response, net.Conn, error) {
 	if p.proxyURL != nil {
 		log.Debugf("martian: CONNECT with downstream proxy: %s", p.proxyURL.Host)
@@ -787,6 +806,8 @@ func (p *Proxy) connect(req *http.Request) (*http.Response, net.Conn, error) {
 
 		res, err := http.ReadResponse(pbr, req)
 		if err != nil {
+			// Nobody else knows of the connection: it is ours to close.
+			conn.Close()
 			return nil, nil, err
 		}
 		if res.StatusCode/100 == 2 {
@@ -801,7 +822,11 @@ func (p *Proxy) connect(req *http.Request) (*http.Response, net.Conn, error) {
 			return res, &peekedConn{conn, pbr}, nil
 		}
 
-		return res, conn, nil
+		// The downstream proxy refused: there is no tunnel. Its answer is a
+		// message like any other, with a body framed as its header says; the
+		// connection it arrives on goes when the body has been passed on.
+		res.Body = &connBody{res.Body, conn}
+		return res, nil, nil
 	}
 
 	log.Debugf("martian: CONNECT to host directly: %s", req.URL.Host)
